@@ -19,6 +19,8 @@
 """
 from __future__ import annotations
 
+from harness import REPO_SRC  # noqa: E402
+
 import copy
 import json
 import os
@@ -50,7 +52,7 @@ ARGS = [
 
 
 def history_part(ctx, quick):
-    sys.path.insert(0, "/repo/src")
+    sys.path.insert(0, REPO_SRC)
     from chameleon import PageTemplate
     wd = workdir("rhist")
     try:
@@ -71,7 +73,7 @@ def history_part(ctx, quick):
     # reference outputs from a fresh process with another hash seed
     ref = {}
     job = json.dumps({"templates": TEMPLATES, "args": [{k: (sorted(v) if isinstance(v, set) else v) for k, v in a.items()} for a in ARGS]})
-    code = ("import sys, json; sys.path.insert(0, '/repo/src')\nfrom chameleon import PageTemplate\nj = json.loads(sys.argv[1])\nout = {}\n"
+    code = ("import sys, json; sys.path.insert(0, %r)\nfrom chameleon" % REPO_SRC + " import PageTemplate\nj = json.loads(sys.argv[1])\nout = {}\n"
             "for name, src in j['templates'].items():\n"
             "    for n, a in enumerate(j['args']):\n"
             "        a = dict(a); a['s'] = set(a['s'])\n"
@@ -181,7 +183,7 @@ class Forcer:
 
 
 def threads_part(ctx, quick, rnd):
-    sys.path.insert(0, "/repo/src")
+    sys.path.insert(0, REPO_SRC)
     from chameleon import PageTemplateFile, _verif
     wd = workdir("cookthr")
     try:
@@ -292,7 +294,7 @@ def _matches_init(rec, fresh):
 
 def stress_part(ctx, quick):
     """free-running threads at a minimal switch interval on a shared file template and a shared loader"""
-    sys.path.insert(0, "/repo/src")
+    sys.path.insert(0, REPO_SRC)
     from chameleon import PageTemplateFile
     from chameleon.zpt.loader import TemplateLoader
     d = tempfile.mkdtemp(prefix="c14s_")
